@@ -95,3 +95,65 @@ META["C15"] = dict(
     note="Trusts: Rust's float Display/parse round trip (checked per literal by the extractor), constant evaluation by naga.",
     technique="Lean 4 proof + decidable spec on real output (bit-exact literal re-parse) + correspondence",
 )
+META["C02"] = dict(
+    text="Kernel-checked C02_partial: for every module satisfying resourceShapes and without a multisampled float texture, every layout entry of a successful generation is accepted by "
+         "Ext.WgpuBinding.checkBindingUse for the variable at its @group/@binding (uniform vs storage and read-only-ness, view dimension / arrayness, sample kind, multisampling, depth, storage "
+         "format and access incl. atomic, sampler comparison-ness) and by the per-entry rules of create_bind_group_layout; C02_counterexample proves the excluded case fails (recorded finding, "
+         "pinned by the repo's own snapshot). Ext.WgpuBinding is a transcription of wgpu-core 24.0.5; the check ALSO hands every generated layout to the REAL "
+         "wgpu_core::validation::Interface::check_stage (Provided and Derived mode, no GPU) and treats its rejections as property failures. Visibility is C03.",
+    design_ref="DESIGN.md section 5 (C02)",
+    note="Trusts: the transcription (validated per case against the real check_stage), resourceShapes (checked per validated module), the name identity naga StorageFormat = wgpu TextureFormat "
+         "(checked by the oracle on every format). Open known findings: multisampled float textures, integer textures gathered through a filtering sampler.",
+    technique="Lean 4 proof against a transcription of wgpu-core + the real wgpu-core check_stage as oracle + differential correspondence",
+)
+META["C05"] = dict(
+    text="Kernel-checked C05 / C05_complete (with bytemuck host-shareable on, a host-shareable struct carries exactly the size check and one offset check per emitted field, with naga's WGSL "
+         "numbers; all other structs carry none) and C05_sound (for ANY assignment of sizes/offsets rustc may choose: if all emitted checks pass, the struct's size and every checked field offset "
+         "are the WGSL ones -- no model of rustc needed). That naga's numbers are the WGSL rules is hypothesis layoutOK, evaluated with Ext.WgslLayout on every validated module.",
+    design_ref="DESIGN.md section 5 (C05)",
+    note="Trusts: Ext.WgslLayout (validated against naga's recorded layouts per module), host-shareability = C08 closure; whether the assertions pass is rustc's decision (batch harness).",
+    technique="Lean 4 proof + decidable spec on real output + layout-rule validation against naga + correspondence",
+)
+META["C06"] = dict(
+    text="Kernel-checked C06 / C06_fields (every emitted struct lists the WGSL struct's non-builtin members in declaration order under the same names, runtime flag exactly on a trailing "
+         "runtime array) and C06_denote (for all three representations, every vector size/kind/width, all 9 matrix shapes, arrays at any nesting, structs, atomics: the emitted Rust type "
+         "denotes the same scalar kind, width and dimension counts as the WGSL type). The specification (Shape / denote / shapeOf / fieldSpec) does not mention the generator's type mapping.",
+    design_ref="DESIGN.md section 5 (C06)",
+    note="Trusts: matrix dimension convention [R, C] pinned by the repo's fixtures; matrices are float (naga).",
+    technique="Lean 4 proof (induction over the type DAG, exhaustive leaf tables) + decidable spec on real output + correspondence",
+)
+META["C16"] = dict(
+    text="Kernel-checked C16_literal_roundtrip (for every source string and every way of escaping it that the Rust lexer allows, the literal token evaluates to exactly the source -- "
+         "Ext.RustLex state machine, all strings, all escape choices), C16 (literal value = source / include_str! of exactly the path; create_shader_module template) and "
+         "C16_include_only_source (include and embedded variants differ only in SOURCE). Partial: that prettyplease/rustfmt keep literal tokens is observed per case: the real token is "
+         "unescaped by the Lean RustLex AND by syn and both compared with the source.",
+    design_ref="DESIGN.md section 5 (C16)",
+    note="Trusts: Ext.RustLex transcription (validated against syn::LitStr::value on every literal); formatter behaviour observed.",
+    technique="Lean 4 proof (round trip for all strings and escapings) + per-case unescape of the real literal + correspondence",
+)
+META["C17"] = dict(
+    text="Kernel-checked, with the front end and validator as parameters: C17_parse (a rejected source yields the parse error carrying the front end's diagnostic, before anything that can "
+         "panic), C17_validate, C17_gate (for sources that pass, validation on = validation off; gen_validate_irrelevant), C17_total. Partial: naga and codespan are oracles; the corrupt harness "
+         "compares the real calls with naga called directly on ~1300 corrupted sources per run (class, message, all four emit_* renderers, no panic).",
+    design_ref="DESIGN.md section 5 (C17)",
+    note="Trusts: naga's parser/validator/codespan; the model of the two gates is tied to the code by the corruption stream and the validation on/off correspondence.",
+    technique="Lean 4 proof over a parametric model + differential run against naga on corrupted sources",
+)
+META["C18"] = dict(
+    text="Kernel-checked C18_set_order / C18_perm: the struct section does not depend on the order (or multiplicity) in which the HashSet of variable types is enumerated -- only on "
+         "membership; everything else in the model is a Lean function of (module, options, source, path). Partial: processes, threads and hash seeds are runtime: the determinism harness "
+         "re-runs every case in-process, in 4 children with different cwd/env/hash seeds/orders and on 16 threads and compares bytes; strace shows no file or process syscalls during generation. "
+         "The whole-output correspondence ties the model to the code.",
+    design_ref="DESIGN.md section 5 (C18)",
+    note="Trusts: environment reads are not syscalls (covered by differing-environment runs only); rustfmt=true delegates to whatever `rustfmt` is on PATH.",
+    technique="Lean 4 proof (order independence) + multi-process / multi-thread byte comparison + strace",
+)
+META["C19"] = dict(
+    text="Kernel-checked C19 = C19_faults (every listed fault -- absent, exit != 0 with or without reading, killed, nothing printed, invalid UTF-8 -- returns the unformatted program), "
+         "C19_ok, C19_total (never panics) over the spawn/write/wait state machine ProcEnv; C19_legacy_counterexample documents the repaired defect. Partial: which OS answers a fault produces, "
+         "hangs, and token preservation by the formatters are observed by the faults harness (stub formatters, inputs below/above the pipe buffer, hard timeout) and by rustfmt-on vs -off "
+         "token comparison; open known finding: prettyplease drops an empty statement that rustfmt keeps.",
+    design_ref="DESIGN.md section 5 (C19)",
+    note="Trusts: ProcEnv mapping (OS pipe semantics) established by stubs; timeouts 30 s vs ~2 s observed.",
+    technique="Lean 4 proof over a process-interaction state machine + fault injection with stub formatters",
+)
